@@ -927,10 +927,14 @@ impl RustGenerator {
                                 .ok_or_else(|| {
                                     format!("missing default function for index {default_index}")
                                 })?;
-                            call_args.push(format!(
-                                "self.{}()",
+                            // The default is computed before the call: as an argument expression
+                            // it would borrow `self` mutably a second time.
+                            let default_name = format!("default_arg_{}", call_args.len());
+                            writer.line(format!(
+                                "let {default_name} = self.{}();",
                                 self.function_direct_name(default_func)
-                            ));
+                            ))?;
+                            call_args.push(default_name);
                         }
                     }
                     let mut direct_call_args = Vec::new();
